@@ -201,7 +201,22 @@ func (p *PathConds) through(from, to *ssa.BasicBlock, depth int) ([]conj, bool) 
 		return nil, false
 	}
 	if isLoopHeader(from) && !loopBody(from)[to] {
-		return pc.cs, true // leaving a loop: its exit test is about loop-variant values
+		// leaving a loop at its head: an exit test on a loop counter (a φ of the head) says
+		// nothing later code is interested in and is dropped; an exit test on memory
+		// (`for p.curToken.Type != ":" && ...`) is kept: the cells it read keep their terms
+		// until they are written again
+		eds := p.edgeDNF(from, to)
+		keep := len(eds) == 1
+		if keep {
+			for _, l := range eds[0] {
+				if strings.Contains(l, "phi(") || strings.Contains(l, "mu(") || strings.Contains(l, "next?") {
+					keep = false
+				}
+			}
+		}
+		if !keep {
+			return pc.cs, true
+		}
 	}
 	if ph, want, ok := phiBranch(from, to); ok && !isLoopHeader(from) {
 		if cs, known := p.valueWays(ph, from, want, depth); known {
